@@ -909,6 +909,11 @@ class BaseModel(ModelInterface):
             estimations[subj_id] = est[0]
 
         # convert to proper dataframe
+        if to_dataframe and len(estimations) == 0:
+            # nothing was requested: empty table with the expected layout
+            if ix is None:
+                ix = pd.MultiIndex.from_arrays([[], []], names=["ID", "TIME"])
+            return pd.DataFrame([], index=ix, columns=self.features)
         if to_dataframe:
             estimations = pd.concat(
                 {
